@@ -17,7 +17,7 @@ JOBS = {'quick': 4, 'thorough': 16}
 REQUIRED_MONITORS = ('result_vs_fresh_map', 'shadow_comparison', 'rejection')
 REQUIRED_CLASSES = ('op:call', 'op:call-repeat', 'op:reject', 'op:mutate-ref', 'op:mutate-target', 'op:mutate-result',
                     'op:mutate-argument', 'multi-residue', 'shipped-pair', 'reject:other-atom-names', 'reject:non-molecule',
-                    'call-after-reject', 'call-after-mutation')
+                    'call-after-reject', 'call-after-mutation', 'mutate-argument:partial', 'mutate-argument:rotate-about-own-atom')
 RULE = ('histories of up to 30 operations over {call(arg from a pool of 6 conformations), reject(foreign argument), '
         'mutate(construction reference|target), mutate(earlier result), mutate(earlier argument)} on one map; reference '
         '>= 3 atoms (generated trees/graphs, multi-residue, shipped CUR/VTE pairs). Non-trivial history: >= 3 distinct '
@@ -187,6 +187,8 @@ def run_case(ctx, case):
             op = 'call'
         if op == 'call':
             k = int(rng.integers(0, len(pool)))
+            if history and history[-1][0] in ('call', 'mutate-argument') and rng.random() < 0.5:
+                k = history[-1][1]          # the object that was just mapped / just mutated in place
             arg = pool[k]
             history.append(('call', k))
             ctx.hit('op:call-repeat' if k in used_args else 'op:call')
@@ -257,9 +259,31 @@ def run_case(ctx, case):
             pending.add(op)
         else:
             k = int(rng.integers(0, len(pool)))
-            history.append((op, k))
+            how = ['move', 'partial', 'rotate-about-own-atom', 'copy-from-other-partial'][int(rng.integers(0, 4))]
+            history.append((op, k, how))
             ctx.hit('op:mutate-argument')
-            pool[k].move(rng.normal(size=3))
+            ctx.hit('mutate-argument:' + how)
+            p = np.array(pool[k].atoms_positions)
+            if how == 'move':
+                pool[k].move(rng.normal(size=3))
+            elif how == 'partial':
+                # some atoms displaced in place, the others keep bit-identical coordinates
+                sel = rng.random(len(p)) < 0.5
+                sel[int(rng.integers(0, len(p)))] = True
+                p[sel] += rng.normal(size=(int(sel.sum()), 3)) * 0.05
+                pool[k].atoms_positions = p
+            elif how == 'rotate-about-own-atom':
+                j = int(rng.integers(0, len(p)))
+                R = gen.random_rotation(rng)
+                q = (p - p[j]) @ R.T + p[j]
+                q[j] = p[j]
+                pool[k].atoms_positions = q
+            else:
+                # the coordinates of another argument with a few atoms displaced
+                src = np.array(pool[(k + 1) % len(pool)].atoms_positions)
+                sel = rng.random(len(src)) < 0.3
+                src[sel] += rng.normal(size=(int(sel.sum()), 3)) * 0.05
+                pool[k].atoms_positions = src
             arg_shadow[k] = snap(pool[k])
             pending.add(op)
         kinds.append(op)
